@@ -18,9 +18,13 @@ pub fn expand() -> Result<(), PathError> {
     let std_dir = std_dir();
 
     if !std_dir.exists() {
+        #[cfg(veryl_verif)]
+        veryl_path::verif_gate::point("std-absent");
         ignore_already_exists(fs::create_dir_all(&std_dir))?;
 
         let lock = veryl_path::lock_dir(&std_dir)?;
+        #[cfg(veryl_verif)]
+        veryl_path::verif_gate::point("std-locked");
 
         for file in Asset::iter() {
             let content = Asset::get(file.as_ref()).unwrap();
@@ -32,10 +36,14 @@ pub fn expand() -> Result<(), PathError> {
             }
 
             fs::write(&path, content.data.as_ref())?;
+            #[cfg(veryl_verif)]
+            veryl_path::verif_gate::point("std-file-written");
         }
 
         veryl_path::unlock_dir(lock)?;
     }
+    #[cfg(veryl_verif)]
+    veryl_path::verif_gate::point("std-expanded");
 
     Ok(())
 }
